@@ -28,7 +28,8 @@ from ..core import cz, clist, cbool
 ID = "C19"
 THEOREMS = ["C19_ir_tie", "C19_save_load_exact", "C19_history_load_exact", "C19_crash_safe_partial",
             "C19_crash_safe_from_partial", "C19_save_never_raises", "C19_window_exact", "C19_window_exact_from",
-            "C19_mode_roundtrip_exact", "C19_master_aliases_live_iff", "C19_snapshot_after_serve_exact_same_dtype",
+            "C19_mode_roundtrip_exact", "C19_mode_roundtrip_all_exact", "C19_tensor_outside_state_dict_refuted",
+            "C19_master_aliases_live_iff", "C19_snapshot_after_serve_exact_same_dtype",
             "C19_master_copy_in_snapshot_refuted", "C19_crash_unlink_symlink_refuted",
             "C19_crash_resave_refuted", "C19_resave_after_crash_stale_refuted"]
 MODEL_TARGETS = ["gen/SaveIR.vo", "model/Snapshot.vo", "model/Harness.vo"]
@@ -113,13 +114,54 @@ def impl():
     return m
 
 
-def model_cfg(m):
-    return m.xformer.Config(n_vocab=256, n_layer=1, d_model=8, d_head=4, n_ctx=12, output_head=m.heads.PolicyValue)
+def model_cfg(m, pe="sin"):
+    return m.xformer.Config(n_vocab=256, n_layer=1, d_model=8, d_head=4, n_ctx=12, output_head=m.heads.PolicyValue,
+                            positional_encoding=pe, autoregressive_mask=False)   # as scripts/alpha_zero.py
 
 
-def new_run(m, run_dir, serve=None, train=None, cap=4, dtype=None):
+def all_tensors(model):
+    """every tensor the forward pass reads: parameters and buffers, persistent or not (a non-persistent buffer is
+    not in state_dict())"""
+    out = dict(model.named_parameters())
+    for k, v in model.named_buffers():
+        out.setdefault(k, v)
+    return out
+
+
+FIXED_TOKENS = [[3, 17, 101, 42, 7, 199], [250, 0, 5, 64, 128, 33]]
+
+
+def forward_out(m, model):
+    """one forward pass on a fixed token batch -> {name: tensor}; None if this dtype cannot run on the cpu"""
+    torch = m.torch
+    try:
+        with torch.no_grad():
+            out = model(torch.tensor(FIXED_TOKENS, dtype=torch.long))
+        return {k: v.detach().clone() for k, v in out.items()}
+    except Exception:     # noqa
+        return None
+
+
+def tensor_diffs(m, a, b):
+    """names whose tensors differ bit for bit -> (dtype pair, max abs difference)"""
+    torch = m.torch
+    out = {}
+    for k in sorted(set(a) | set(b)):
+        if k not in a or k not in b:
+            out[k] = ("missing", "missing", float("inf"))
+            continue
+        x, y = a[k], b[k]
+        if x.dtype != y.dtype or x.shape != y.shape or not torch.equal(x, y):
+            d = float("inf")
+            if x.shape == y.shape and x.numel():
+                d = float((x.double() - y.double()).abs().max())
+            out[k] = (str(x.dtype), str(y.dtype), d)
+    return out
+
+
+def new_run(m, run_dir, serve=None, train=None, cap=4, dtype=None, pe="sin"):
     """what TrainingRun.run_async builds before load_or_init_model"""
-    cfg = m.Config(model=model_cfg(m), device="cpu", run_dir=run_dir, hooks=[], replay_buffer_steps=cap,
+    cfg = m.Config(model=model_cfg(m, pe), device="cpu", run_dir=run_dir, hooks=[], replay_buffer_steps=cap,
                    train_batch=4, train_positions=4, lr=1e-2)
     if serve is not None:
         cfg.serve_dtype = serve
@@ -133,11 +175,11 @@ def new_run(m, run_dir, serve=None, train=None, cap=4, dtype=None):
     return tr
 
 
-def make_state(m, step, ver, dtype=None, nbuf=2):
+def make_state(m, step, ver, dtype=None, nbuf=2, pe="sin"):
     """a deterministic training state for (step, version): weights, AdamW after one step, replay buffer, counters"""
     torch = m.torch
     g = torch.Generator().manual_seed(1000003 * ver + step)
-    tr = new_run(m, None, dtype=dtype)
+    tr = new_run(m, None, dtype=dtype, pe=pe)
     st = tr.state
     with torch.no_grad():
         for p in st.model.parameters():
@@ -694,12 +736,13 @@ def roundtrip_cases(run, world):
         dt = torch.bfloat16 if i % 2 else torch.float32
         dist[str(dt).split(".")[1]] += 1
         step = run.rng.randint(0, 999999)
-        st = make_state(m, step, 100 + i, dtype=dt, nbuf=run.rng.randint(0, 3))
+        pe = ("sin", "learned", "none")[i % 3]
+        st = make_state(m, step, 100 + i, dtype=dt, nbuf=run.rng.randint(0, 3), pe=pe)
         run_dir = world.fresh_dir()
         hook = m.saving.SavingHook(freq=1)
         hook.before_run(st, types.SimpleNamespace(run_dir=run_dir))
         (hook.after_run if i % 3 == 0 else hook.after_step)(st)
-        fresh = new_run(m, run_dir, dtype=dt)
+        fresh = new_run(m, run_dir, dtype=dt, pe=pe)
         err = None
         try:
             fresh.load_or_init_model()
@@ -708,12 +751,27 @@ def roundtrip_cases(run, world):
         comps = ["CModel", "COpt", "CReplay", "CElapsed"]
         a = state_digests(m, st)
         b = state_digests(m, fresh.state) if err is None else {c: -1 for c in comps}
-        meta = {"dtype": str(dt), "step": step, "saved": a, "loaded": b, "error": err,
+        if err is None:
+            td = tensor_diffs(m, all_tensors(st.model), all_tensors(fresh.state.model))
+            for k, (d1, d2, mx) in list(td.items())[:3]:
+                run.violation(f"roundtrip-tensor:{pe}:{dt}:{k}",
+                              {"clause": "loading a snapshot restores every tensor the forward pass reads, bit for bit",
+                               "tensor": k, "dtypes": [d1, d2], "max_abs_diff": mx, "positional_encoding": pe,
+                               "model_dtype": str(dt), "step": step, "in_state_dict": k in st.model.state_dict()})
+            fa, fb = forward_out(m, st.model), forward_out(m, fresh.state.model)
+            if fa is not None and fb is not None:
+                fd = tensor_diffs(m, fa, fb)
+                for k, (d1, d2, mx) in list(fd.items())[:2]:
+                    run.violation(f"roundtrip-forward:{pe}:{dt}:{k}",
+                                  {"clause": "the restored model computes what the saved one computed",
+                                   "output": k, "max_abs_diff": mx, "tokens": FIXED_TOKENS, "positional_encoding": pe,
+                                   "model_dtype": str(dt), "differing_tensors": sorted(td)[:5]})
+        meta = {"dtype": str(dt), "step": step, "saved": a, "loaded": b, "error": err, "positional_encoding": pe,
                 "files": sorted(os.listdir(os.path.join(run_dir, "latest"))) if os.path.exists(os.path.join(run_dir, "latest")) else None}
         cs.add(f"({core.czlist([a[c] for c in comps])}, {core.czlist([b[c] for c in comps])})", meta)
         # the run_async way: the fresh model is float32 whatever was saved; values must still be exact
         if dt is not torch.float32 and err is None:
-            fresh32 = new_run(m, run_dir)
+            fresh32 = new_run(m, run_dir, pe=pe)
             fresh32.load_or_init_model()
             same = all(torch.equal(v.float(), fresh32.state.model.state_dict()[k].float())
                        for k, v in st.model.state_dict().items())
@@ -728,48 +786,73 @@ def dt_coq(m, d):
 
 
 def mode_cases(run, world):
+    """real serve_mode / forward / train_mode.  Compared bit for bit: EVERY tensor of named_parameters() and
+    named_buffers() (non-persistent buffers included - they are outside state_dict() and so outside train_params)
+    and the output of a forward pass on a fixed token batch, before vs after."""
     m = world.m
     torch = m.torch
     cs = core.Cases(ID, "mode", HEADER, "mode_case", "mode_case_ok", shard=50)
-    combos = [(None, None), (torch.bfloat16, None), (torch.float16, None), (torch.float32, torch.float32),
-              (torch.bfloat16, torch.float32), (torch.float64, None)]
-    reps = 2 if run.quick else 12
+    combos = [(pe, serve, None) for pe in ("sin", "learned", "none")
+              for serve in (None, torch.bfloat16, torch.float16)]
+    combos += [("sin", torch.float32, torch.float32), ("sin", torch.bfloat16, torch.float32), ("sin", torch.float64, None)]
+    reps = 1 if run.quick else 6
     n = 0
-    for serve, train in combos:
+    for pe, serve, train in combos:
         for r in range(reps):
-            tr = new_run(m, None, serve=serve, train=train)
+            tr = new_run(m, None, serve=serve, train=train, pe=pe)
+            model = tr.state.model
             with torch.no_grad():
                 g = torch.Generator().manual_seed(run.rng.randint(0, 2 ** 31))
-                for p in tr.state.model.parameters():
+                for p in model.parameters():
                     p.copy_(torch.randn(p.shape, generator=g) * 0.3)
-            if r % 2:       # after a real optimiser step, as train_step leaves it
-                for p in tr.state.model.parameters():
+            if (r + n) % 2:       # after a real optimiser step, as train_step leaves it
+                for p in model.parameters():
                     p.grad = torch.randn(p.shape, generator=g) * 0.1
                 tr.state.opt.step()
-            sd = tr.state.model.state_dict()
-            keys = list(sd)
-            before = [digest(m, sd[k]) for k in keys]
-            ptrs = [sd[k].data_ptr() for k in keys]
+                tr.state.opt.zero_grad()
+            sd_keys = set(model.state_dict())
+            ts = all_tensors(model)
+            keys = list(ts)
+            in_sd = [k in sd_keys for k in keys]
+            saved = {k: ts[k].detach().clone() for k in keys}
+            before = [digest(m, saved[k]) for k in keys]
+            ptrs = [ts[k].data_ptr() for k in keys]
             distinct = len(set(ptrs)) == len(ptrs)
+            out_before = forward_out(m, model)
             tr.serve_mode()
-            live = tr.state.model.state_dict()
-            alias = [tr.train_params[k].data_ptr() == live[k].data_ptr() for k in keys]
+            live = all_tensors(model)
+            alias = [k in tr.train_params and tr.train_params[k].data_ptr() == live[k].data_ptr() for k in keys]
             served_dtype = {str(live[k].dtype) for k in keys if live[k].is_floating_point()}
-            with torch.no_grad():       # serving: a forward pass in serving precision
-                try:
-                    tr.state.model(torch.randint(0, 200, (2, 6)))
-                except Exception:    # noqa  (half precision matmul may be unsupported on some CPUs; not our subject)
-                    pass
+            forward_out(m, model)       # serving: a forward pass in serving precision (may be unsupported on cpu)
             tr.train_mode()
-            sd2 = tr.state.model.state_dict()
-            after = [digest(m, sd2[k]) for k in keys]
-            meta = {"serve_dtype": str(tr.config.serve_dtype), "train_dtype": str(tr.config.train_dtype),
-                    "served_dtypes": sorted(served_dtype), "aliased_keys": sum(alias), "keys": len(keys),
-                    "changed_keys": [k for k, a, b in zip(keys, before, after) if a != b][:5], "distinct_storages": distinct}
+            now = {k: v.detach() for k, v in all_tensors(model).items()}
+            after = [digest(m, now[k]) if k in now else -1 for k in keys]
+            out_after = forward_out(m, model)
+            sname, tname = str(tr.config.serve_dtype), str(tr.config.train_dtype)
+            td = tensor_diffs(m, saved, now)
+            meta = {"positional_encoding": pe, "serve_dtype": sname, "train_dtype": tname,
+                    "served_dtypes": sorted(served_dtype), "aliased": sum(alias), "tensors": len(keys),
+                    "outside_state_dict": [k for k, f in zip(keys, in_sd) if not f],
+                    "changed": {k: v for k, v in list(td.items())[:5]}, "distinct_storages": distinct}
+            for k, (d1, d2, mx) in list(td.items())[:3]:
+                run.violation(f"mode-tensor:{pe}:{sname}:{k}",
+                              {"clause": "switching the model to serving precision and back restores the training "
+                                         "parameters (every tensor the forward pass reads) bit for bit",
+                               "tensor": k, "dtypes (before, after)": [d1, d2], "max_abs_diff": mx,
+                               "in_state_dict": k in sd_keys, "positional_encoding": pe, "serve_dtype": sname,
+                               "train_dtype": tname, "device": "cpu",
+                               "model": "n_layer=1 d_model=8 d_head=4 n_ctx=12 PolicyValue head"})
+            if out_before is not None and out_after is not None:
+                fd = tensor_diffs(m, out_before, out_after)
+                for k, (d1, d2, mx) in list(fd.items())[:2]:
+                    run.violation(f"mode-forward:{pe}:{sname}:{k}",
+                                  {"clause": "after serve_mode(); train_mode() the model computes what it computed before",
+                                   "output": k, "max_abs_diff": mx, "tokens": FIXED_TOKENS, "positional_encoding": pe,
+                                   "serve_dtype": sname, "train_dtype": tname, "differing_tensors": sorted(td)[:5]})
             cs.add(f"(true, {dt_coq(m, tr.config.serve_dtype)}, {dt_coq(m, tr.config.train_dtype)}, {core.czlist(before)}, "
-                   f"{clist([cbool(x) for x in alias])}, {core.czlist(after)})", meta)
+                   f"{clist([cbool(x) for x in in_sd])}, {clist([cbool(x) for x in alias])}, {core.czlist(after)})", meta)
             if not distinct:
-                run.oblige("assumption:one storage per state_dict key", False, str(meta))
+                run.oblige("assumption:one storage per tensor", False, str(meta))
             n += 1
     return cs, n
 
@@ -980,8 +1063,10 @@ def _correspondence(run):
         failing, shard_fail, nsh = ms.run()
         run.oblige(f"correspondence:mode ({nsh} shards)", not shard_fail, str(shard_fail)[:1500])
         run.count(n, n, "real serve_mode / forward pass / train_mode on cpu: per-key digests before = after, and "
-                  "train_params[k].data_ptr() == live data_ptr compared with the model's aliasing prediction; serve_dtype "
-                  "float32 (forced by Config on cpu), bfloat16, float16, float64 set explicitly",
+                  "train_params[k].data_ptr() == live data_ptr compared with the model's aliasing prediction; every tensor of "
+                  "named_parameters() and named_buffers() (non-persistent included) and the output of a forward pass on a "
+                  "fixed token batch compared bit for bit; positional encodings sin/learned/none x serve_dtype float32 "
+                  "(forced by Config on cpu), bfloat16, float16 (+ float64) set explicitly",
                   [ms.metas[1]] if len(ms.metas) > 1 else [], label="mode")
         for meta in failing[:5]:
             run.violation(f"mode:{meta['serve_dtype']}:{meta['train_dtype']}",
